@@ -3,26 +3,50 @@
 // Contracts checked by /verif/govc (comment-only; compiled only with -tags verif).
 package bitslice
 
+// ---- options: closures over the unexported opt type. optDigitsOf / optNoCheck name what an Option sets
+// (definitional; the closure bodies are one assignment each and are not traced by the verifier).
+//@ spec func optDigitsOf(o Option) int
+//@ spec func optNoCheck(o Option) bool
+//@ contract WithNbDigits
+//@   trusted
+//@   pure
+//@   ensures optDigitsOf(result) == nbDigits && !optNoCheck(result)
+//@ contract WithUnconstrainedOutputs
+//@   trusted
+//@   pure
+//@   ensures optDigitsOf(result) == 0 && optNoCheck(result)
+//@ contract functype Option
+//@   assigns *arg0
+//@   ensures optDigitsOf(self) >= 1 && !optNoCheck(self) ==> result == nil && arg0.digits == optDigitsOf(self) && arg0.nocheck == old(arg0.nocheck)
+//@   ensures optDigitsOf(self) == 0 && optNoCheck(self) ==> result == nil && arg0.nocheck && arg0.digits == old(arg0.digits)
+
+// the option lists under contract: none; WithNbDigits(n); WithNbDigits(n), WithUnconstrainedOutputs()
+//@ spec func plainOpts(opts []Option) bool = len(opts) == 0 || (len(opts) == 1 && optDigitsOf(opts[0]) >= 1 && !optNoCheck(opts[0]))
+//@ spec func weakOpts(opts []Option) bool = len(opts) == 2 && optDigitsOf(opts[0]) >= 1 && !optNoCheck(opts[0]) && optDigitsOf(opts[1]) == 0 && optNoCheck(opts[1])
+//@ spec func digitsOf(opts []Option) int = len(opts) == 0 ? 0 : optDigitsOf(opts[0])
+//@ spec func W(digits int) int = (digits > 0 && digits < fieldBits()) ? digits : fieldBits()
+
+//@ contract parseOpts
+//@   props C14
+//@   ensures @plain plainOpts(opts) ==> result.1 == nil && result.0 != nil && fresh(result.0) && result.0.digits == digitsOf(opts) && !result.0.nocheck
+//@   ensures @weak weakOpts(opts) ==> result.1 == nil && result.0 != nil && fresh(result.0) && result.0.digits == digitsOf(opts) && result.0.nocheck
+//@   loop 1 invariant @fresh o != nil && fresh(o)
+//@   loop 1 invariant @none rangeindex < 0 ==> o.digits == 0 && !o.nocheck
+//@   loop 1 invariant @first rangeindex == 0 && optDigitsOf(opts[0]) >= 1 && !optNoCheck(opts[0]) ==> o.digits == optDigitsOf(opts[0]) && !o.nocheck
+//@   loop 1 invariant @second rangeindex == 1 && weakOpts(opts) ==> o.digits == optDigitsOf(opts[0]) && o.nocheck
+
 // Partition, for an arbitrary wire assignment satisfying the emitted constraints (soundness mode):
 // v = lower + 2^split * upper over the integers, lower < 2^split, upper < 2^(W-split), where W is the
 // WithNbDigits bound when it is below the field width and the field width otherwise. With
 // WithUnconstrainedOutputs only the input bound is enforced (the documented weak contract).
 //@ contract Partition
 //@   props C14
+//@   assigns api
 //@   requires api != nil
-//@   ensures @recompose !opt.nocheck && split <= W(opt.digits) ==> ival(den(v)) == ival(den(lower)) + mulp(ival(den(upper)), split)
-//@   ensures @lower-range !opt.nocheck && split <= W(opt.digits) ==> fits(ival(den(lower)), split)
-//@   ensures @upper-range !opt.nocheck && split <= W(opt.digits) ==> fits(ival(den(upper)), W(opt.digits) - split)
-//@   ensures @input-range opt.digits > 0 && opt.digits < fieldBits() && split <= opt.digits ==> fits(ival(den(v)), opt.digits)
+//@   ensures @recompose plainOpts(opts) && split <= W(digitsOf(opts)) ==> ival(den(v)) == ival(den(lower)) + mulp(ival(den(upper)), split)
+//@   ensures @lower-range plainOpts(opts) && split <= W(digitsOf(opts)) ==> fits(ival(den(lower)), split)
+//@   ensures @upper-range plainOpts(opts) && split <= W(digitsOf(opts)) ==> fits(ival(den(upper)), W(digitsOf(opts)) - split)
+//@   ensures @input-range (plainOpts(opts) || weakOpts(opts)) && digitsOf(opts) > 0 && digitsOf(opts) < fieldBits() && split <= digitsOf(opts) ==> fits(ival(den(v)), digitsOf(opts))
 //   full-width path: the two elementary facts about splitting a little-endian bit sum at position `split`
 //@   lemma @bsum-split bsum(bts) == bsum(bts[:split]) + mulp(bsum(bts[split:]), split)
 //@   lemma @bsum-bound allBool(bts) ==> fits(bsum(bts[:split]), split) && fits(bsum(bts[split:]), len(bts) - split)
-
-//@ spec func W(digits int) int = (digits > 0 && digits < fieldBits()) ? digits : fieldBits()
-
-// Options are closures over the unexported opt type, so the only ones that exist are those built by
-// WithNbDigits (digits >= 1) and WithUnconstrainedOutputs; the verifier cannot resolve calls through the
-// function values, hence this contract is trusted.
-//@ contract parseOpts
-//@   trusted
-//@   ensures result.1 == nil ==> result.0 != nil && fresh(result.0) && result.0.digits >= 0
